@@ -338,6 +338,13 @@ func (s *Sim) LockGate(addr any) {
 		return
 	}
 	sl.Yield("lock", mutexEnabler{s, addr}, 0)
+	if s.aborting() && !(mutexEnabler{s, addr}).Enabled(0) {
+		// Teardown of a run in which the mutex was never released (a leaked
+		// lock: the wedge has been recorded already). Entering Lock() would
+		// block this goroutine non-durably and the bubble could never end;
+		// the task ends here instead, running its deferred calls.
+		runtime.Goexit()
+	}
 }
 func (s *Sim) Locked(addr any)   { s.setHeld(addr, true) }
 func (s *Sim) Unlocked(addr any) { s.setHeld(addr, false) }
